@@ -5,6 +5,7 @@ use serde_json::Value;
 
 pub mod c01;
 pub mod c02;
+pub mod c03;
 pub mod c04;
 pub mod c10;
 pub mod c11;
@@ -24,6 +25,7 @@ pub fn registry() -> Vec<PropEntry> {
   vec![
     PropEntry { id: "C01", meta: c01::meta, run: c01::run, replay: c01::replay, profiles: &["release", "chk"] },
     PropEntry { id: "C02", meta: c02::meta, run: c02::run, replay: c02::replay, profiles: &["release", "chk"] },
+    PropEntry { id: "C03", meta: c03::meta, run: c03::run, replay: c03::replay, profiles: &["release", "chk"] },
     PropEntry { id: "C04", meta: c04::meta, run: c04::run, replay: c04::replay, profiles: &["release", "chk"] },
     PropEntry { id: "C10", meta: c10::meta, run: c10::run, replay: c10::replay, profiles: &["release", "chk"] },
     PropEntry { id: "C11", meta: c11::meta, run: c11::run, replay: c11::replay, profiles: &["release", "chk"] },
